@@ -19,7 +19,7 @@ impl Prop for C01 {
     }
     fn strategy(tier: Tier) -> BoxedStrategy<History> {
         let n = if tier == Tier::Quick { 40 } else { 120 };
-        let small = history::history(&[(6, ElemKind::Tr), (3, ElemKind::U32), (2, ElemKind::Zs), (1, ElemKind::U128), (1, ElemKind::B3)], 0.15, n, 0.0);
+        let small = history::history(&[(6, ElemKind::Tr), (3, ElemKind::U32), (2, ElemKind::Zs), (1, ElemKind::U128), (1, ElemKind::B3), (1, ElemKind::W40), (1, ElemKind::Nd)], 0.15, n, 0.0);
         let giant = super::gianthist::strategy(super::gianthist::Focus::All).prop_map(giant_history);
         prop_oneof![24 => small, 1 => giant].boxed()
     }
@@ -67,7 +67,7 @@ impl Prop for C05 {
         history::execute(case, Mode::Drops, ctx)
     }
     fn fuzz_sanitize(case: &mut History) -> bool {
-        if matches!(case.elem, ElemKind::U32 | ElemKind::U128 | ElemKind::B3) {
+        if matches!(case.elem, ElemKind::U32 | ElemKind::U128 | ElemKind::B3 | ElemKind::W40 | ElemKind::Nd) {
             case.elem = ElemKind::Bx;
         }
         case.giant = None;
